@@ -5,6 +5,11 @@ from pyvc.engine import Engine
 from pyvc.values import Unsupported
 
 
+def _mk(make_contract, eng):
+    names = make_contract.__code__.co_varnames[:make_contract.__code__.co_argcount]
+    return make_contract(eng) if names[:1] == ('eng',) else make_contract()
+
+
 def verify_function(run, relfile, qual, make_contract, timeout_ms=10000, engine_setup=None, note=None):
     """Returns (status, failed) with status in {'proved','failed','unsupported'} and failed the list
     of obligations that were not discharged."""
@@ -14,7 +19,7 @@ def verify_function(run, relfile, qual, make_contract, timeout_ms=10000, engine_
         eng = Engine(path, timeout_ms=timeout_ms)
         if engine_setup:
             engine_setup(eng)
-        contract = make_contract(eng) if make_contract.__code__.co_argcount >= 1 else make_contract()
+        contract = _mk(make_contract, eng)
         obs = eng.verify(qual, contract)
     except Unsupported as e:
         run.downgrades.append({"function": fq, "reason": str(e)})
@@ -70,7 +75,7 @@ def canary(run, relfile, qual, make_contract, engine_setup=None):
         eng = Engine(path, timeout_ms=3000)
         if engine_setup:
             engine_setup(eng)
-        c = make_contract(eng) if make_contract.__code__.co_argcount >= 1 else make_contract()
+        c = _mk(make_contract, eng)
         c.ensures = lambda S, a, r: [("canary: False", z3.BoolVal(False))]
         obs = eng.verify(qual, c)
     except Unsupported:
